@@ -22,13 +22,13 @@ inductive DataChain (B : List Nat) (u : Nat) : Nat → Nat → List Seg → Prop
       DataChain B u (j + n) k rest → DataChain B u j k (sg :: rest)
 
 /-- Pure ACKs for bytes `j … k` sent by a receiver whose buffer held `r` bytes before. -/
-inductive AckChain (u cap : Nat) : Nat → Nat → Nat → List Seg → Prop
-  | nil (j r : Nat) : AckChain u cap j j r []
+inductive AckChain (u cap sq : Nat) : Nat → Nat → Nat → List Seg → Prop
+  | nil (j r : Nat) : AckChain u cap sq j j r []
   | cons (j n k r : Nat) (sg : Seg) (rest : List Seg) :
       0 < n → j + n ≤ k →
       sg.payload = [] → sg.flags.ack = true → sg.flags.fin = false → sg.flags.rst = false →
-      sg.flags.syn = false → sg.ack = wadd u (j + n) → sg.window = advWindow cap (r + n) →
-      AckChain u cap (j + n) k (r + n) rest → AckChain u cap j k r (sg :: rest)
+      sg.flags.syn = false → sg.seq = sq → sg.ack = wadd u (j + n) → sg.window = advWindow cap (r + n) →
+      AckChain u cap sq (j + n) k (r + n) rest → AckChain u cap sq j k r (sg :: rest)
 
 theorem DataChain.le {B : List Nat} {u j k : Nat} {L : List Seg} (h : DataChain B u j k L) : j ≤ k := by
   induction h with
@@ -164,7 +164,14 @@ theorem recv_data (cfg : Cfg) (e : End) (sg : Seg) (hst : e.tcb.state = .establi
     rw [hfa, hav]
     simp
   rw [hhe]
-  simp
+  have hrep : Tcb.replySeg cfg (e.tcb.took sg) sg 0 0 = Tcb.ackSeg cfg.recvCap (e.tcb.took sg) 0 0 := by
+    unfold Tcb.replySeg Tcb.oldDup
+    have : sg.payload.isEmpty = false := by
+      cases hp : sg.payload with
+      | nil => exact absurd hp hne
+      | cons a b => rfl
+    simp [this]
+  simp [hrep]
 
 theorem take_split (l : List Nat) (n m : Nat) (h : n ≤ m) : l.take m = l.take n ++ (l.drop n).take (m - n) := by
   have : m = n + (m - n) := by omega
@@ -180,7 +187,7 @@ theorem recv_chain (cfg : Cfg) (B : List Nat) (u : Nat) {j k : Nat} {L : List Se
           { e with tcb := { e.tcb with sndWnd := w, recvBuf := e.tcb.recvBuf ++ (B.drop j).take (k - j),
                                        rcvNxt := wadd u k },
                    out := e.out ++ A } ∧
-        AckChain u cfg.recvCap j k e.tcb.recvBuf.length A ∧ (j = k → w = e.tcb.sndWnd) := by
+        AckChain u cfg.recvCap e.tcb.sndNxt j k e.tcb.recvBuf.length A ∧ (j = k → w = e.tcb.sndWnd) := by
   induction h with
   | nil j =>
     intro e _ _ _ _ hrn _
@@ -204,7 +211,7 @@ theorem recv_chain (cfg : Cfg) (B : List Nat) (u : Nat) {j k : Nat} {L : List Se
       have hkk : k - j - n = k - (j + n) := by omega
       simp only [Tcb.took, List.append_assoc, List.cons_append, List.nil_append]
       rw [hsplit, hpay, hkk]
-    · refine AckChain.cons j n k _ _ A hn hjk rfl rfl rfl rfl rfl ?_ ?_ ?_
+    · refine AckChain.cons j n k _ _ A hn hjk rfl rfl rfl rfl rfl rfl ?_ ?_ ?_
       · simp only [Tcb.ackSeg, Tcb.took]; rw [hrn, hplen, wadd_wadd]
       · simp only [Tcb.ackSeg, Tcb.took, List.length_append]; rw [hplen]
       · have : e.tcb.recvBuf.length + n = (e.tcb.took sg).recvBuf.length := by
@@ -214,7 +221,8 @@ theorem recv_chain (cfg : Cfg) (B : List Nat) (u : Nat) {j k : Nat} {L : List Se
 /-- A pure ACK (no payload, no FIN / SYN / RST) at an established endpoint with no FIN queued: a
     valid one frees the acknowledged bytes and resets the retransmit state; any one sets the window. -/
 theorem recv_pure_ack (cfg : Cfg) (e : End) (sg : Seg) (hst : e.tcb.state = .established)
-    (hfin : e.tcb.finSeq = none) (hmn : e.tcb.sndMax = e.tcb.sndNxt) (hp : sg.payload = []) (hfa : sg.flags.ack = true)
+    (hfin : e.tcb.finSeq = none) (hmn : e.tcb.sndMax = e.tcb.sndNxt) (hsq : sg.seq = e.tcb.rcvNxt)
+    (hp : sg.payload = []) (hfa : sg.flags.ack = true)
     (hff : sg.flags.fin = false) (hfr : sg.flags.rst = false) (hfs : sg.flags.syn = false) :
     endRecv cfg e sg =
       { e with tcb :=
@@ -262,7 +270,14 @@ theorem recv_pure_ack (cfg : Cfg) (e : End) (sg : Seg) (hst : e.tcb.state = .est
     simp only [Nat.lt_irrefl, if_false]
     unfold Tcb.onFin
     rw [hff, hfs, hp]
-    simp
+    have hrn : (e.tcb.onAck cfg.fixSndMax sg).rcvNxt = e.tcb.rcvNxt := by
+      rw [hon]
+      split <;> rfl
+    have hod : (e.tcb.onAck cfg.fixSndMax sg).oldDup sg = false := by
+      unfold Tcb.oldDup
+      rw [hrn, hsq, wsub_self]
+      simp
+    simp [hod]
   have hst' : (e.tcb.state == TcpState.closed) = false := by rw [hst]; decide
   unfold endRecv
   rw [hfr, hst', hhe, hon]
@@ -270,10 +285,10 @@ theorem recv_pure_ack (cfg : Cfg) (e : End) (sg : Seg) (hst : e.tcb.state = .est
 
 /-- The sender, fed the receiver's ACKs in order, frees exactly bytes `j … k`; its window is the last
     one advertised and its retransmit state is reset. -/
-theorem ack_chain (cfg : Cfg) (u cap : Nat) {j k r : Nat} {A : List Seg}
-    (h : AckChain u cap j k r A) (hk : k < M32) :
+theorem ack_chain (cfg : Cfg) (u cap sq : Nat) {j k r : Nat} {A : List Seg}
+    (h : AckChain u cap sq j k r A) (hk : k < M32) :
     ∀ e : End, e.tcb.state = .established → e.tcb.finSeq = none → e.tcb.sndMax = e.tcb.sndNxt →
-      e.tcb.sndUna = wadd u j → e.tcb.sndNxt = wadd u k →
+      e.tcb.rcvNxt = sq → e.tcb.sndUna = wadd u j → e.tcb.sndNxt = wadd u k →
       A.foldl (endRecv cfg) e =
         { e with tcb :=
             { e.tcb with sendBuf := e.tcb.sendBuf.drop (k - j), sndUna := wadd u k,
@@ -282,21 +297,21 @@ theorem ack_chain (cfg : Cfg) (u cap : Nat) {j k r : Nat} {A : List Seg}
                          retxAttempts := if j = k then e.tcb.retxAttempts else 0 } } := by
   induction h with
   | nil j r =>
-    intro e _ _ _ hun _
+    intro e _ _ _ _ hun _
     simp [← hun]
-  | cons j n k r sg rest hn hjk hp hfa hff hfr hfs hack hwin hch ih =>
-    intro e hst hfin hmn hun hnx
+  | cons j n k r sg rest hn hjk hp hfa hff hfr hfs hsq hack hwin hch ih =>
+    intro e hst hfin hmn hrn hun hnx
     have hle : j + n ≤ k := hjk
     have hacked : wsub sg.ack e.tcb.sndUna = n := by
       rw [hack, hun, wsub_wadd_wadd u j (j + n) (by omega) (by omega)]; omega
     have hinfl : e.tcb.inFlight = k - j := by
       unfold Tcb.inFlight
       rw [hnx, hun, wsub_wadd_wadd u j k (by omega) hk]
-    have h1 := recv_pure_ack cfg e sg hst hfin hmn hp hfa hff hfr hfs
+    have h1 := recv_pure_ack cfg e sg hst hfin hmn (hsq.trans hrn.symm) hp hfa hff hfr hfs
     rw [hacked, hinfl, if_pos (by omega : 0 < n ∧ n ≤ k - j)] at h1
     have hle2 := hjk
     have ih' := ih hk (endRecv cfg e sg) (by rw [h1]; exact hst) (by rw [h1]; exact hfin) (by rw [h1]; exact hmn)
-      (by rw [h1]; exact hack) (by rw [h1]; exact hnx)
+      (by rw [h1]; exact hrn) (by rw [h1]; exact hack) (by rw [h1]; exact hnx)
     rw [List.foldl_cons, ih', h1]
     have hne : j ≠ k := by omega
     simp only [if_neg hne, List.drop_drop, hwin]
@@ -462,6 +477,7 @@ structure LInv (cfg : Cfg) (p : Pair) : Prop where
   yrs : p.y.tcb.reset = false
   yto : p.y.tcb.timedOut = false
   yrn : p.y.tcb.rcvNxt = p.x.tcb.sndUna
+  xrn : p.x.tcb.rcvNxt = p.y.tcb.sndNxt
   ymx : p.y.tcb.sndMax = p.y.tcb.sndUna
 
 /-- An endpoint after `poll_send` accepted `w`. -/
@@ -645,7 +661,8 @@ theorem liveRound_ok (cfg : Cfg) (mss thr max d n : Nat) (w : List Nat) (p : Pai
       rw [if_neg this, hes]
   obtain ⟨tk, htk0, hT⟩ := hT
   -- the sender takes the ACKs
-  have hX4a := ack_chain cfg p.x.tcb.sndUna cfg.recvCap hAc hk32 (((p.x.wrote (w.take m)).sent k L).ticked tk) h.xst h.xfin rfl
+  have hX4a := ack_chain cfg p.x.tcb.sndUna cfg.recvCap p.y.tcb.sndNxt hAc hk32 (((p.x.wrote (w.take m)).sent k L).ticked tk) h.xst h.xfin rfl
+    h.xrn
     (by show p.x.tcb.sndUna = _; rw [wadd_zero _ h.xlt]) rfl
   have hround : liveRound cfg mss thr max d n w p =
       { x := U.foldl (endRecv cfg) (A.foldl (endRecv cfg) (((p.x.wrote (w.take m)).sent k L).ticked tk)),
@@ -659,11 +676,12 @@ theorem liveRound_ok (cfg : Cfg) (mss thr max d n : Nat) (w : List Nat) (p : Pai
     rw [ho4, drop_take_append, List.foldl_append, hT]
   have hUc : (U = [] ∧ (0 < k → advWindow cfg.recvCap k ≠ 0)) ∨
       (∃ sg : Seg, U = [sg] ∧ sg.payload = [] ∧ sg.flags.ack = true ∧ sg.flags.fin = false ∧ sg.flags.rst = false ∧
-        sg.flags.syn = false ∧ sg.ack = wadd p.x.tcb.sndUna k ∧ sg.window = advWindow cfg.recvCap 0) := by
+        sg.flags.syn = false ∧ sg.seq = p.y.tcb.sndNxt ∧ sg.ack = wadd p.x.tcb.sndUna k ∧
+        sg.window = advWindow cfg.recvCap 0) := by
     rw [← hU]
     simp only [End.got, hlenR, hfw]
     split
-    · right; exact ⟨_, rfl, rfl, rfl, rfl, rfl, rfl, rfl, rfl⟩
+    · right; exact ⟨_, rfl, rfl, rfl, rfl, rfl, rfl, rfl, rfl, rfl⟩
     · left
       rename_i hc
       refine ⟨rfl, ?_⟩
@@ -691,7 +709,7 @@ theorem liveRound_ok (cfg : Cfg) (mss thr max d n : Nat) (w : List Nat) (p : Pai
         (((p.x.wrote (w.take m)).sent k L).ticked tk).acked k (wadd p.x.tcb.sndUna k) wnd 0 ra := by
     have hadv0 : 1 ≤ advWindow cfg.recvCap 0 := by unfold advWindow; omega
     rw [hXA]
-    rcases hUc with ⟨hUe, hnz⟩ | ⟨sg, hUe, hp, hfa, hff, hfr, hfs, hack, hwin⟩
+    rcases hUc with ⟨hUe, hnz⟩ | ⟨sg, hUe, hp, hfa, hff, hfr, hfs, hsq, hack, hwin⟩
     · rw [hUe]
       refine ⟨_, _, ?_, ?_, rfl⟩
       · by_cases h0 : 0 = k
@@ -709,7 +727,7 @@ theorem liveRound_ok (cfg : Cfg) (mss thr max d n : Nat) (w : List Nat) (p : Pai
       rw [recv_pure_ack cfg ((((p.x.wrote (w.take m)).sent k L).ticked tk).acked k (wadd p.x.tcb.sndUna k)
         (if 0 = k then p.x.tcb.sndWnd else advWindow cfg.recvCap (0 + (k - 0)))
         0 (if 0 = k then p.x.tcb.retxAttempts else 0))
-        sg h.xst h.xfin rfl hp hfa hff hfr hfs]
+        sg h.xst h.xfin rfl (hsq.trans h.xrn.symm) hp hfa hff hfr hfs]
       have hz : wsub sg.ack (wadd p.x.tcb.sndUna k) = 0 := by rw [hack, wsub_self]
       rw [if_neg (by
         show ¬ (0 < wsub sg.ack (wadd p.x.tcb.sndUna k) ∧ _)
@@ -724,7 +742,7 @@ theorem liveRound_ok (cfg : Cfg) (mss thr max d n : Nat) (w : List Nat) (p : Pai
     all_goals first
       | exact h.xst | exact h.xwr | exact h.xfin | exact h.xrs | exact h.xto | exact hw1 | exact hw2
       | exact h.yst | exact h.yfl | exact h.ysb | exact h.ypf | exact h.yfin | exact h.yrs | exact h.yto
-      | exact wadd_lt _ _ | exact h.ymx | rfl
+      | exact wadd_lt _ _ | exact h.ymx | exact h.xrn | rfl
   · rw [hround]
     have hBlen : B.length = p.x.tcb.sendBuf.length + m := by
       rw [← hB, List.length_append, List.length_take]; omega
